@@ -46,9 +46,21 @@ def _prune(keep):
               os.path.isdir(os.path.join(ROOT, d))]
     except FileNotFoundError:
         return
+    # only directories nobody has used for a while: other checks (on /repo or
+    # on other scratch trees) may be running from theirs right now
+    now = time.time()
     ds.sort(key=lambda d: os.path.getmtime(os.path.join(ROOT, d)))
     for d in ds[:-1]:
-        shutil.rmtree(os.path.join(ROOT, d), ignore_errors=True)
+        try:
+            idle = now - os.path.getmtime(os.path.join(ROOT, d))
+        except OSError:
+            continue
+        if idle > 3 * 3600:
+            shutil.rmtree(os.path.join(ROOT, d), ignore_errors=True)
+            try:
+                os.remove(os.path.join(ROOT, d + '.lock'))
+            except OSError:
+                pass
 
 
 def ensure(verbose=False, repo=REPO):
